@@ -2,7 +2,7 @@
    Statements only; proofs in RebuildProofs.v. *)
 From Coq Require Import QArith.
 From HS Require Import Prelude Cov Map Spec Ops Spec2 Params AtFold MapProofs UpdateProofs HistoryProofs
-     LayoutProofs AccountProofs OpsProofs RebuildProofs FracdetProofs CongRefine Exec Exec2 ExecProofs.
+     LayoutProofs AccountProofs OpsProofs RebuildProofs FracdetProofs CongRefine FracdetAbs Exec Exec2 ExecProofs.
 Open Scope Z_scope.
 
 Section C15.
@@ -70,6 +70,22 @@ Proof.
   - intros pv [<-|[<-|[]]]; (split; [apply Z.leb_le|apply Z.ltb_lt]; vm_compute; reflexivity).
 Qed.
 
+(* the whole fractional-detection map as a function of the dense abstraction: per coarse pixel the number of
+   valid children, on the same coverage mask, whatever the block order *)
+Theorem C15_fracdet_map_refines_the_dense_count :
+  forall (P : params) (m : smap (p_V P)) (r : Z),
+    MapProofs.wf P m -> 0 < r -> nfine m mod r = 0 ->
+    abs Z 0 (fracdet_map P m r) = d_fracdet P (abs (p_V P) (p_dv P) m) r.
+Proof. exact fracdet_refines. Qed.
+
+(* looking a map up with pixel numbers of a finer resolution (get_values_pix(pixels, nside=finer) shifts the
+   numbers down and reads): the value of the containing pixel, i.e. the lookup on the upgraded map *)
+Theorem C15_finer_lookup_is_the_lookup_on_the_upgraded_map :
+  forall (P : params) (r : Z) (m : smap (p_V P)) p,
+    MapProofs.wf P m -> 0 < r -> 0 <= p < npix (p_V P) m * r ->
+    read (p_V P) (p_dv P) m (p / r) = read (p_V P) (p_dv P) (upgrade (p_V P) r m) p.
+Proof. intros P r m p W Hr Hp. symmetry. exact (upgrade_read P r m p W Hr Hp). Qed.
+
 Print Assumptions C15_upgrade_replicates.
 Print Assumptions C15_upgrade_refines.
 Print Assumptions C15_upgrade_keeps_layout.
@@ -77,3 +93,5 @@ Print Assumptions C15_degrade_of_upgrade_is_identity.
 Print Assumptions C15_fracdet_is_the_fraction_of_valid_children.
 Print Assumptions C15_fracdet_at_coverage_resolution_is_the_coverage_map.
 Print Assumptions C15_hypotheses_satisfiable.
+Print Assumptions C15_fracdet_map_refines_the_dense_count.
+Print Assumptions C15_finer_lookup_is_the_lookup_on_the_upgraded_map.
